@@ -358,44 +358,52 @@ def construction_chain(fg, bk):
 
 
 def true_edges_of_call(b, pred):
-    """For calls satisfying pred(block, term) whose bool result is switched on: list of
+    """For calls satisfying pred(block, term) whose bool result is switched on - right away or later
+    through a local that caches it (`let is_member = set.contains(&x); .. if is_member {..}`): list of
     (call_block, switch_block, true_target, false_target)."""
     out = []
     for bi, t in b.calls():
         if not pred(bi, t):
             continue
-        d = t["d"]["l"]
-        nb = t["t"]
-        if nb is None:
+        if t["t"] is None or t["d"]["pr"]:
             continue
-        # follow gotos / `Not` until a switch on d
-        cur = nb
-        neg = False
-        val = d
-        for _ in range(6):
-            blk = b.blocks[cur]
-            for s in blk["s"]:
-                if s["k"] == "assign" and s["r"]["k"] == "un" and s["r"]["op"] == "Not" and s["r"]["a"]["k"] != "const" and s["r"]["a"]["p"]["l"] == val:
-                    val = s["p"]["l"]
-                    neg = not neg
-                elif s["k"] == "assign" and s["r"]["k"] == "use" and s["r"]["o"]["k"] != "const" and s["r"]["o"]["p"]["l"] == val and not s["r"]["o"]["p"]["pr"]:
-                    val = s["p"]["l"]
+        # locals holding the result (or its negation): plain copies / `Not` of a holder, defined once
+        hold = {t["d"]["l"]: False}
+        changed = True
+        while changed:
+            changed = False
+            for blk in b.blocks:
+                for s in blk["s"]:
+                    if s["k"] != "assign" or s["p"]["pr"] or s["p"]["l"] in hold:
+                        continue
+                    r = s["r"]
+                    src = None
+                    neg = False
+                    if r["k"] == "use" and r["o"]["k"] != "const" and not r["o"]["p"]["pr"]:
+                        src = r["o"]["p"]["l"]
+                    elif r["k"] == "un" and r.get("op") == "Not" and r["a"]["k"] != "const" and not r["a"]["p"]["pr"]:
+                        src, neg = r["a"]["p"]["l"], True
+                    if src in hold and len(defs_of(b, s["p"]["l"])) == 1:
+                        hold[s["p"]["l"]] = hold[src] ^ neg
+                        changed = True
+        if len(defs_of(b, t["d"]["l"])) != 1:
+            hold = {t["d"]["l"]: False}
+        for cur, blk in enumerate(b.blocks):
             tt = blk["t"]
-            if tt["k"] == "switch" and tt["o"]["k"] != "const" and tt["o"]["p"]["l"] == val:
-                zero = None
-                for v, tb in tt["ts"]:
-                    if v == "0":
-                        zero = tb
-                other = tt["else"]
-                if zero is None:
-                    break
-                tr, fa = (other, zero) if not neg else (zero, other)
-                out.append((bi, cur, tr, fa))
-                break
-            if tt["k"] == "goto":
-                cur = tt["t"]
+            if tt["k"] != "switch" or tt["o"]["k"] == "const" or tt["o"]["p"]["pr"] or tt["o"]["p"]["l"] not in hold:
                 continue
-            break
+            if not (cur == t["t"] or b.dominates(bi, cur)):
+                continue
+            zero = None
+            for v, tb in tt["ts"]:
+                if v == "0":
+                    zero = tb
+            other = tt["else"]
+            if zero is None:
+                continue
+            neg = hold[tt["o"]["p"]["l"]]
+            tr, fa = (other, zero) if not neg else (zero, other)
+            out.append((bi, cur, tr, fa))
     return out
 
 
